@@ -584,7 +584,7 @@ def run_c02(ctx):
         s = g.program_state(g.r.randint(1, 30))
         lim = g.r.choice([-1, 0, 1, 2, 3, 5, 8, 13, 21, 40])
         s["cfg"]["push_limit"] = lim
-        s["cfg"]["growth_cap"] = g.r.choice([0, 1, 2, 3, 5, 500])
+        s["cfg"]["growth_cap"] = g.r.choice([0, 1, 2, 3, 5, 500, -1, -2])      # negative: usize::MAX, usize::MAX - 1 ("no cap")
         if g.r.random() < 0.3:      # the program is already on the CODE stack (e.g. a second run on the same state)
             s["code"] = [json.loads(json.dumps(x)) for x in s["exec"]] + (s["code"] if g.r.random() < 0.5 else [])
         cs.append({"id": "randrun-%05d" % i, "pre": s, "acts": [{"a": "copy_to_code"}, {"a": "steps", "k": max(lim, 0) + 3}, {"a": "run_from_start"}]})
